@@ -188,6 +188,12 @@ pub struct Sched {
     pub max_points: usize,
 }
 
+thread_local! {
+    /// probability (percent) per call of changing the compression level mid-stream
+    /// (set_compression_level_raw), for the scenarios that exercise it
+    pub static RELEVEL_PCT: std::cell::Cell<u32> = std::cell::Cell::new(0);
+}
+
 /// Drive the low-level compressor along a schedule; log every call; then log the whole
 /// output as a stream to be parsed by the acceptor.
 pub fn stream_comp_case(
@@ -214,6 +220,7 @@ pub fn stream_comp_case(
     let mut calls = 0usize;
     let mut cuts: Vec<usize> = Vec::new();
     let mut points = 0usize;
+    let mut releveled = false;
     let mut prev_left_space = true; // previous call left output space unused (nothing pending)
     let mut nosync_since: Option<usize> = None;
     let _ = &mut nosync_since;
@@ -239,6 +246,15 @@ pub fn stream_comp_case(
             0
         };
         let flush = FLUSHES[flush_i].1;
+        let rp = RELEVEL_PCT.with(|c| c.get());
+        if rp > 0 && r.gen_range(0..100) < rp {
+            // allowed by the API; refused by the compressor itself when the new level would need a
+            // larger window than the one fixed at creation
+            let nl = [1u8, 2, 6, 9][r.gen_range(0..4)];
+            c.set_compression_level_raw(nl);
+            releveled = true;
+            tr.ev(json!({"ev": "note", "what": "set_compression_level_raw", "level": nl, "flags": c.flags()}));
+        }
         let chunk = &input[pos..offered_end];
         let out_len = sch.outs[r.gen_range(0..sch.outs.len())];
         let res = if sch.callback {
@@ -324,6 +340,9 @@ pub fn stream_comp_case(
                  "streamed": true});
     if tr.redundant {
         ce["redundant"] = json!(true);
+    }
+    if releveled {
+        ce["releveled"] = json!(true);
     }
     tr.ev(ce);
     let (ds, eq) = dec_summary_eq(zl, &out_all, Some(input));
